@@ -20,7 +20,7 @@ Proof.
   unfold prepare. destruct (Nat.eqb (length (d_pos (promoted c))) (g_dim g)) eqn:Ed; simpl negb; cbv iota; [|discriminate].
   apply Nat.eqb_eq in Ed.
   destruct (data_bounds _ _ _ _) as [l h]. destruct (fit_bounds _ l h) as [b0 b1].
-  destruct (levels vmin_o vmax_o st) as [vmin vmax].
+  destruct (levels vmin_o vmax_o st) as [vmin vmax]. unfold normalised_levels. cbv iota beta.
   destruct adjust; intros H; injection H as <-; simpl; repeat split; exact Ed.
 Qed.
 
@@ -213,7 +213,7 @@ Section Main.
   Proof.
     intros Hd. unfold prepare. rewrite (proj1 (promoted_pos c)), Hd, Nat.eqb_refl. simpl negb. cbv iota.
     destruct (data_bounds _ _ _ _) as [l h]. destruct (fit_bounds _ l h) as [b0 b1].
-    destruct (levels vmin_o vmax_o st) as [vmin vmax].
+    destruct (levels vmin_o vmax_o st) as [vmin vmax]. unfold normalised_levels. cbv iota beta.
     destruct adjust; eexists; reflexivity.
   Qed.
 
@@ -225,7 +225,12 @@ Section Main.
     intros Hspec Hwf Hv Hd Hlev.
     destruct (prepare_ok g st vmin_o vmax_o adjust c Hd) as [p Ep].
     destruct (prepare_shape g st vmin_o vmax_o adjust c p Hwf Ep) as (_ & El' & _ & Hdim & _ & Hflat & _).
+    destruct El' as (vmin0 & vmax0 & El' & Esc & Evmin & Evmax & _).
     unfold levels in El'. injection El' as E1 E2. rewrite E1, E2 in Hlev.
+    assert (Hlev' : adjust = false \/ p_vmin p < p_vmax p).
+    { destruct Hlev as [H|H]; [left; exact H|right]. rewrite Evmin, Evmax. apply div_scale_lt; [|exact H].
+      rewrite Esc. apply level_scale_pos. }
+    clear Hlev. rename Hlev' into Hlev.
     destruct (refine_start_feasible g st vmin_o vmax_o adjust c p Hwf Hv Ep Hlev) as (Hpre & _).
     destruct (fitted_ok lsq dev g st vmin_o vmax_o adjust c p Hwf Ep Hspec Hpre) as [d Ed].
     unfold refine. rewrite Ep, Ed. unfold finish.
